@@ -3,6 +3,7 @@
    0 desc   : (0 ctor layers (orig wrapped native_same panicked))   wrapDesc on one descriptor
    1 write  : (1 arrays metrics ops (outs final_arrays))            wrappingMetric.Write over shared label slices
    2 reg    : (2 collectors ops results)                            Register/Unregister through wrappers vs natively declared
+              (5 layers (register_kind mustregister_panicked unregister))  wrappers over a nil Registerer (same stream file)
    3 gather : (3 layers fams0 fams1 fams2 unreg_ok n_after)         Gather unwrapped / wrapped / unwrapped again
    4 gather-broken : (4 layers ninvalid fams0 fams1 fams2 fams_native (e0 e1 e2 en))
                                                                     collectors emitting broken metrics in the middle *)
@@ -297,6 +298,15 @@ Definition check_gather_broken (ly : list layer) (ninv : Z) (f0 f1 f2 fn : list 
         Bool.eqb e1 ((0 <? ninv) || dropped) && Bool.eqb e1 en && Bool.eqb e0 (0 <? ninv) && Bool.eqb e2 (0 <? ninv))
        (list_eqb fam_eqb (map (model_rename ly) (filter_fams (model_keeps ly) f0)) f1).
 
+(* ---------- stream 2, nil Registerer: wrappers over a nil Registerer are no-ops ---------- *)
+(* documented (wrap.go:31,57): Register returns nil, MustRegister does not panic, Unregister returns
+   false, at every nesting depth; res = (Register kind, MustRegister panicked, Unregister result) *)
+Definition nil_registerer_model (ly : list layer) : Z * Z * Z := (0, 0, 0).
+Definition check_nil_registerer (ly : list layer) (res : Z * Z * Z) : Z :=
+  let '(rk, mp, un) := res in
+  both ((rk =? 0) && (mp =? 0) && (un =? 0))
+       (let '(a, b, c) := nil_registerer_model ly in (rk =? a) && (mp =? b) && (un =? c)).
+
 (* ---------- entry points ---------- *)
 Definition check (s : sx) : Z :=
   match s with
@@ -320,6 +330,11 @@ Definition check (s : sx) : Z :=
       match dL d_layer ly, dL d_fam f0, dL d_fam f1, dL d_fam f2 with
       | Some ly, Some f0, Some f1, Some f2 => check_gather ly f0 f1 f2 u n
       | _, _, _, _ => code_decode_error
+      end
+  | SL [SZ 5; ly; res] =>
+      match dL d_layer ly, d_res res with
+      | Some ly, Some res => check_nil_registerer ly res
+      | _, _ => code_decode_error
       end
   | SL [SZ 4; ly; SZ ninv; f0; f1; f2; fn; SL [e0; e1; e2; en]] =>
       match dL d_layer ly, dL d_fam f0, dL d_fam f1, dL d_fam f2, dL d_fam fn, dB e0, dB e1, dB e2, dB en with
